@@ -18,13 +18,24 @@
 //! in-flight deltas handed to `apply_remote_deltas` in one call (any order, duplicates,
 //! several per key, several authors), or as a full-state batch (a peer's whole snapshot, the
 //! anti-entropy / SyncResponse shape), optionally mixed with in-flight deltas (relay).
+//! WAL: nodes can have a WAL attached the way `server_persistent` attaches it
+//! (`spawn_wal_actor` + `set_wal_handle`, policies Always / EverySecond / No) over an in-memory
+//! store whose append and fsync fail while a generated fault flag is set. Whatever the WAL
+//! does, the oracles stay: a command that replied with an error must not have changed what
+//! the accepting node serves, and whatever the accepting node serves must reach every replica.
+//!
 //! String keys and hash keys are separate pools and values are numeric, so that none of the
 //! open actor-level findings is in play: this tier runs without any tolerance.
 
 use proptest::prelude::*;
 use redis_sim::production::ReplicatedShardedState;
 use redis_sim::replication::{ConsistencyLevel, ReplicaId, ReplicatedValue, ReplicationConfig, ReplicationDelta};
-use redis_sim::streaming::{delta_sink_channel, DeltaSinkReceiver};
+use redis_sim::streaming::wal_config::{FsyncPolicy, WalConfig};
+use redis_sim::streaming::{
+    delta_sink_channel, spawn_wal_actor, DeltaSinkReceiver, InMemoryWalStore, WalError, WalFileWriter, WalStore,
+};
+use std::sync::atomic::{AtomicBool, Ordering};
+use std::sync::Arc;
 use serde::{Deserialize, Serialize};
 use std::collections::hash_map::DefaultHasher;
 use std::collections::{BTreeMap, BTreeSet, HashMap};
@@ -96,12 +107,17 @@ pub enum CStep {
     /// full-state batch: every entry of `from`'s snapshot_state() as one call at `to` (the
     /// anti-entropy shape), with the picked in-flight deltas for `to` in front or behind
     Sync { from: u8, to: u8, picks: Vec<u16>, in_front: bool },
+    /// the WAL store of `node` starts / stops failing (append: disk full, fsync: error)
+    WalFault { node: u8, on: bool },
 }
 
 #[derive(Clone, Debug, Serialize, Deserialize)]
 pub struct CoordCase {
     pub nodes: u8,
     pub steps: Vec<CStep>,
+    /// 0 = no WAL attached, 1 = fsync Always, 2 = EverySecond, 3 = No
+    #[serde(default)]
+    pub wal: u8,
 }
 
 fn sv(parts: &[&str]) -> Vec<String> {
@@ -140,16 +156,69 @@ pub fn coord_case_strategy(thorough: bool) -> impl Strategy<Value = CoordCase> {
         6 => (0u8..6, picks()).prop_map(|(to, picks)| CStep::Batch { to, picks }),
         2 => (0u8..6, 0u8..6, proptest::collection::vec(any::<u16>(), 0..4), any::<bool>())
             .prop_map(|(from, to, picks, in_front)| CStep::Sync { from, to, picks, in_front }),
+        2 => (0u8..6, prop::bool::weighted(0.7)).prop_map(|(node, on)| CStep::WalFault { node, on }),
     ];
-    (2u8..=3, proptest::collection::vec(step, 3..max_steps)).prop_map(|(nodes, steps)| CoordCase { nodes, steps })
+    let wal = prop_oneof![2 => Just(0u8), 4 => Just(1u8), 1 => Just(2u8), 1 => Just(3u8)];
+    (2u8..=3, proptest::collection::vec(step, 3..max_steps), wal).prop_map(|(nodes, steps, wal)| CoordCase { nodes, steps, wal })
+}
+
+/// In-memory WAL store whose writers fail while the shared flag is set.
+#[derive(Clone)]
+struct FaultyWalStore {
+    inner: InMemoryWalStore,
+    fault: Arc<AtomicBool>,
+}
+
+struct FaultyWriter {
+    inner: <InMemoryWalStore as WalStore>::Writer,
+    fault: Arc<AtomicBool>,
+}
+
+impl WalFileWriter for FaultyWriter {
+    fn append(&mut self, data: &[u8]) -> Result<u64, WalError> {
+        if self.fault.load(Ordering::SeqCst) {
+            return Err(WalError::DiskFull);
+        }
+        self.inner.append(data)
+    }
+    fn sync(&mut self) -> Result<(), WalError> {
+        if self.fault.load(Ordering::SeqCst) {
+            return Err(WalError::FsyncFailed("injected by the harness".into()));
+        }
+        self.inner.sync()
+    }
+    fn size(&self) -> u64 {
+        self.inner.size()
+    }
+}
+
+impl WalStore for FaultyWalStore {
+    type Writer = FaultyWriter;
+    type Reader = <InMemoryWalStore as WalStore>::Reader;
+    fn create(&self, name: &str) -> Result<Self::Writer, WalError> {
+        Ok(FaultyWriter { inner: self.inner.create(name)?, fault: self.fault.clone() })
+    }
+    fn open_read(&self, name: &str) -> Result<Self::Reader, WalError> {
+        self.inner.open_read(name)
+    }
+    fn list(&self) -> Result<Vec<String>, WalError> {
+        self.inner.list()
+    }
+    fn delete(&self, name: &str) -> Result<(), WalError> {
+        self.inner.delete(name)
+    }
+    fn exists(&self, name: &str) -> Result<bool, WalError> {
+        self.inner.exists(name)
+    }
 }
 
 struct Coord {
     st: ReplicatedShardedState<VerifTime>,
     rx: DeltaSinkReceiver,
+    wal_fault: Arc<AtomicBool>,
 }
 
-fn new_coord(id: u64) -> Coord {
+fn new_coord(id: u64, wal: u8) -> Result<Coord, String> {
     let cfg = ReplicationConfig {
         enabled: false,
         replica_id: id,
@@ -159,7 +228,30 @@ fn new_coord(id: u64) -> Coord {
     let mut st = ReplicatedShardedState::with_time_source(cfg, VerifTime::new(0));
     let (tx, rx) = delta_sink_channel();
     st.set_delta_sink(tx);
-    Coord { st, rx }
+    let wal_fault = Arc::new(AtomicBool::new(false));
+    let policy = match wal {
+        1 => Some(FsyncPolicy::Always),
+        2 => Some(FsyncPolicy::EverySecond),
+        3 => Some(FsyncPolicy::No),
+        _ => None,
+    };
+    if let Some(fsync_policy) = policy {
+        // as server_persistent does: spawn the WAL actor over a store and hand its handle to
+        // the replicated state (the group-commit wait is zero: no verdict depends on time)
+        let store = FaultyWalStore { inner: InMemoryWalStore::new(), fault: wal_fault.clone() };
+        let wc = WalConfig {
+            enabled: true,
+            wal_dir: std::path::PathBuf::from("/nonexistent/verif-wal"),
+            fsync_policy,
+            max_file_size: 1 << 20,
+            group_commit_max_entries: 8,
+            group_commit_max_wait: std::time::Duration::ZERO,
+            truncation_check_interval: std::time::Duration::from_secs(3600),
+        };
+        let (handle, _task) = spawn_wal_actor(store, wc).map_err(|e| format!("harness: WAL actor does not start: {}", e))?;
+        st.set_wal_handle(handle);
+    }
+    Ok(Coord { st, rx, wal_fault })
 }
 
 async fn run(c: &Coord, argv: &[&str]) -> Result<Reply, String> {
@@ -361,6 +453,14 @@ impl<'a, 'b> Sys<'a, 'b> {
                 }
             }
         }
+        let is_write_cmd = matches!(name.as_str(), "SET" | "DEL" | "MSET" | "INCR" | "APPEND" | "HSET" | "HDEL" | "HINCRBY");
+        let mut before: Vec<(String, Reply)> = Vec::new();
+        if is_write_cmd {
+            for k in &distinct {
+                before.push((k.clone(), self.served(node, k).await?));
+            }
+        }
+        let wal_failing = self.nodes[node].wal_fault.load(Ordering::SeqCst);
         let reply = run(&self.nodes[node], &args).await?;
         let deltas = self.nodes[node].rx.drain();
         self.trace.push(format!(
@@ -375,6 +475,29 @@ impl<'a, 'b> Sys<'a, 'b> {
             }
         ));
         self.ctx.label(&format!("coord:{}{}", name.to_lowercase(), if multi { "_multi" } else { "" }));
+        if is_write_cmd && wal_failing {
+            self.ctx.label("coord:write_while_wal_failing");
+        }
+        // a command that replied with an error must not be visible: not here, and (through the
+        // Q1/Q2 oracles) not anywhere
+        if reply.is_error() {
+            self.ctx.label("coord:error_reply");
+            for (k, b) in &before {
+                let now = self.served(node, k).await?;
+                if now != *b {
+                    return Err(self.fail(format!(
+                        "n{} {}: the client got {} but the command took effect on this node: {} served {} before and {} now{}",
+                        node + 1,
+                        argv.join(" "),
+                        reply.show(),
+                        k,
+                        b.show(),
+                        now.show(),
+                        if wal_failing { " (the node's WAL store is failing)" } else { "" }
+                    )));
+                }
+            }
+        }
         let is_write = matches!(name.as_str(), "SET" | "DEL" | "MSET" | "INCR" | "APPEND" | "HSET" | "HDEL" | "HINCRBY");
         if is_write {
             for k in &distinct {
@@ -591,7 +714,7 @@ pub fn check_coord(case: &CoordCase, ctx: &mut CaseCtx<'_>) -> Result<(), String
         let n = (case.nodes as usize).clamp(2, 4);
         let mut sys = Sys {
             ctx,
-            nodes: (0..n).map(|i| new_coord(i as u64 + 1)).collect(),
+            nodes: (0..n).map(|i| new_coord(i as u64 + 1, case.wal)).collect::<Result<Vec<_>, _>>()?,
             inflight: Vec::new(),
             next_id: 0,
             multi: BTreeSet::new(),
@@ -602,6 +725,7 @@ pub fn check_coord(case: &CoordCase, ctx: &mut CaseCtx<'_>) -> Result<(), String
             winners: BTreeMap::new(),
             batches: 0,
         };
+        sys.ctx.label(["coord:wal_none", "coord:wal_always", "coord:wal_everysec", "coord:wal_no"][(case.wal as usize).min(3)]);
         let mut reordered = false;
         for s in &case.steps {
             match s {
@@ -617,6 +741,14 @@ pub fn check_coord(case: &CoordCase, ctx: &mut CaseCtx<'_>) -> Result<(), String
                             reordered = true;
                         }
                         sys.deliver(i).await;
+                    }
+                }
+                CStep::WalFault { node, on } => {
+                    let i = *node as usize % n;
+                    if case.wal != 0 {
+                        sys.nodes[i].wal_fault.store(*on, Ordering::SeqCst);
+                        sys.trace.push(format!("WAL store of n{} {}", i + 1, if *on { "starts failing (append: disk full, fsync: error)" } else { "works again" }));
+                        sys.ctx.label("coord:wal_fault_step");
                     }
                 }
                 CStep::Batch { to, picks } => {
@@ -693,5 +825,6 @@ pub fn coord_reproducer() -> CoordCase {
             CStep::Deliver { idx: 0 },
             CStep::Cmd { node: 0, argv: sv(&["DEL", &k[0], &k[1]]) },
         ],
+        wal: 0,
     }
 }
